@@ -26,7 +26,7 @@ NATIVE_PY = os.environ.get('VERIF_NATIVE_PYTHON', '/venv/bin/python')
 sys.path.insert(0, HERE)
 sys.path.insert(0, REPO)
 
-CONTRACT_MODULES = ['contracts.validators', 'contracts.canary']
+CONTRACT_MODULES = ['contracts.validators', 'contracts.ir_types', 'contracts.canary', 'lemmas.c10']
 
 
 def load_contracts():
@@ -55,9 +55,14 @@ def worker(job):
         from pyvc import verify
         E = verify.setup_engine(seed)
         V = verify.Verifier(tier, seed)
-        con = CT.REGISTRY[target]
-        con._known_cases = [k for k in known if k['target'] == target and k.get('status') == 'known' and k.get('case')]
-        rep = V.verify(E, con)
+        if target.startswith('lemma:'):
+            lem = CT.LEMMAS[target[6:]]
+            lem._known_cases = [k for k in known if k['target'] == target and k.get('status') == 'known' and k.get('case')]
+            rep = verify.verify_lemma(V, E, lem)
+        else:
+            con = CT.REGISTRY[target]
+            con._known_cases = [k for k in known if k['target'] == target and k.get('status') == 'known' and k.get('case')]
+            rep = V.verify(E, con)
         out = rep.to_json()
         out['wall'] = time.time() - t0
         return out
@@ -103,7 +108,9 @@ def main():
         return do_replay(CT, prop, args.replay)
 
     known = load_known()
-    targets = [t for t in CT.ORDER if prop in CT.REGISTRY[t].opts.get('properties', [])]
+    targets = [t for t in CT.ORDER if prop in CT.REGISTRY[t].opts.get('properties', [])
+               and not CT.REGISTRY[t].opts.get('abstract')]
+    targets += ['lemma:' + n for n in CT.LEMMA_ORDER if prop in CT.LEMMAS[n].opts.get('properties', [])]
     canaries = [t for t in CT.ORDER if CT.REGISTRY[t].opts.get('canary')]
     if not targets:
         print('checker fault: no contracts registered for %s' % prop)
@@ -136,7 +143,6 @@ def main():
 
     for t in targets:
         r = by_target[t]
-        con = CT.REGISTRY[t]
         if r.get('crash'):
             fault.append('engine crash on %s: %s' % (t, r['crash']))
             continue
